@@ -4,7 +4,7 @@ from analysis.facts import AnchorError
 from analysis import terms as T, k2
 from analysis import chessref as R
 from analysis.cfg import cfg_of
-from analysis.effects import subterms, acnorm, strip_casts
+from analysis.effects import canon, subterms, acnorm, strip_casts
 
 THOROUGH_CONFIGS = ['release', 'nobmi2', 'movegen-alone']
 LEVEL = "other"
@@ -157,8 +157,8 @@ def r4(ctx):
         inner = ws[0]
         for w in ws[1:]:
             inner = eng.binop("BitOr", inner, w)
-        exp = acnorm(bb(eng.binop("BitAnd", inner, word(a[3]))))
-        got = {acnorm(lf.ret) for lf in lv}
+        exp = canon(bb(eng.binop("BitAnd", inner, word(a[3]))))
+        got = {canon(lf.ret) for lf in lv}
         ctx.ob(f"{ty}::pseudo_legals", got == {exp}, f"{ty}::pseudo_legals computes {[T.show(l.ret)[:120] for l in lv]}; expected its attack lookup(s) & mask", site=body.get("def_span"),
                sample=T.show(lv[0].ret)[:100] if lv else None)
         pc = assoc_const(P, PT + ty, "PIECE")
@@ -232,7 +232,7 @@ def r1(ctx):
     # own pieces are excluded from every destination set: every generator receives !raw[turn] & mask and the board itself
     prm = [("param", i, body["locals"][i + 1].get("n", f"arg{i}")) for i in range(body["argc"])]
     own = word(("index", fld(fld(slf, "raw"), "colors"), ("cast", "usize", ("discr", fld(slf, "turn")))))
-    want_mask = acnorm(("bin", "BitAnd", ("field", prm[1], "0"), ("un", "Not", own)))
+    want_mask = canon(("bin", "BitAnd", ("field", prm[1], "0"), ("un", "Not", own)))
     bad = []
     n_calls = 0
     for lf in lv:
@@ -240,7 +240,7 @@ def r1(ctx):
             if tr[0] == "call" and tr[1] in gen_fns:
                 n_calls += 1
                 m = tr[2][2]
-                got = acnorm(m[3][0]) if m[0] == "adt" and m[2] == "BitBoard" else None
+                got = canon(m[3][0]) if m[0] == "adt" and m[2] == "BitBoard" else None
                 if got != want_mask or tr[2][1] != ("refv", slf):
                     bad.append(T.show(m)[:160])
     ctx.floor("generator calls over all dispatch paths", n_calls, 13)
@@ -314,23 +314,23 @@ def r2(ctx):
                 for x in lk[1:]:
                     inner = C.OR(inner, word(x))
                 pseudo = C.AND(inner, word(mask))
-            is_pinned_loop = acnorm(dom) == acnorm(C.AND(own_set, word(fld(board, "pinned"))))
-            is_unpinned_loop = acnorm(dom) == acnorm(C.AND(own_set, C.NOT(word(fld(board, "pinned")))))
+            is_pinned_loop = canon(dom) == canon(C.AND(own_set, word(fld(board, "pinned"))))
+            is_unpinned_loop = canon(dom) == canon(C.AND(own_set, C.NOT(word(fld(board, "pinned")))))
             cms = [x for x in subterms(mv) if x[0] == "app" and x[1].startswith(CHECK_MASK)]
             lines = [x for x in subterms(mv) if x[0] == "app" and x[1] == "chess_lookup::line"]
-            nonempty = any(t[0] == "bin" and t[1] == "Eq" and acnorm(t[2]) == acnorm(mv) and t[3] == T.I(0, "u64") and v == 0 for t, v in lf.cond) or \
-                any(t[0] == "bin" and t[1] == "Eq" and acnorm(t[3]) == acnorm(mv) and t[2] == T.I(0, "u64") and v == 0 for t, v in lf.cond)
+            nonempty = any(t[0] == "bin" and t[1] == "Eq" and canon(t[2]) == canon(mv) and t[3] == T.I(0, "u64") and v == 0 for t, v in lf.cond) or \
+                any(t[0] == "bin" and t[1] == "Eq" and canon(t[3]) == canon(mv) and t[2] == T.I(0, "u64") and v == 0 for t, v in lf.cond)
             if is_unpinned_loop:
                 seen["unpinned"] += 1
                 cm_ok = len(cms) == 1 and cms[0][2][0] in (("refv", board), board) and cms[0][2][1] == ksq
-                ok = cm_ok and acnorm(mv) == acnorm(C.AND(pseudo, word(cms[0]))) and not lines and src[0] == "vfield" and nonempty
+                ok = cm_ok and canon(mv) == canon(C.AND(pseudo, word(cms[0]))) and not lines and src[0] == "vfield" and nonempty
                 ctx.ob(f"{ty} unpinned#{seen['unpinned']}", ok, f"{ty} (not pinned): destinations {T.show(mv)[:200]}; expected pseudo_legals(src, turn, occupancy, mask) & check_mask(board, own king), "
                        f"skipped when empty (non-empty test present: {nonempty})", site=site, sample={"domain": "own & !pinned", "moves": "pseudo & check_mask"})
             elif is_pinned_loop:
                 seen["pinned"] += 1
                 line_ok = len(lines) == 1 and set(lines[0][2]) == {src, ksq}
                 guard_ok = in_check == [0]
-                ok = line_ok and acnorm(mv) == acnorm(C.AND(pseudo, word(lines[0]))) and guard_ok and can_pin and nonempty
+                ok = line_ok and canon(mv) == canon(C.AND(pseudo, word(lines[0]))) and guard_ok and can_pin and nonempty
                 ctx.ob(f"{ty} pinned#{seen['pinned']}", ok, f"{ty} (pinned): destinations {T.show(mv)[:200]} under IS_IN_CHECK={in_check}; expected pseudo_legals & line(src, own king), only when not in check"
                        f"{'' if can_pin else ' -- and this piece type must not move at all when pinned'}", site=site, sample={"domain": "own & pinned", "moves": "pseudo & line(src, king)"})
             else:
@@ -376,8 +376,8 @@ def r3(ctx):
                                      C.AND(word(("app", "chess_lookup::knight_moves", (kp,))), C.pieces("Knight"), opp),
                                      C.AND(word(("app", "chess_lookup::pawn_attacks_moves", (kp, fld(board, "turn")))), C.pieces("Pawn"), opp)), T.I(0, "u64"))
         mine = [lf for lf in rets + loops if lf.known.get(fld(board, "turn")) == turn]
-        doms = {acnorm(iter_domain(a)) for lf in mine for t, v in lf.cond if t[0] == "discr" and t[1][0] == "app" and t[1][1] == NEXT for a in [t[1][2][0][1] if t[1][2][0][0] == "refv" else t[1][2][0]]}
-        ctx.ob(f"attackers on rays[{turn}]", doms == {acnorm(pinners)}, f"is_legal_king_position ({turn} to move) scans {[T.show(d)[:150] for d in doms]}; expected enemy & ((bishops|queens) & bishop_rays | "
+        doms = {canon(iter_domain(a)) for lf in mine for t, v in lf.cond if t[0] == "discr" and t[1][0] == "app" and t[1][1] == NEXT for a in [t[1][2][0][1] if t[1][2][0][0] == "refv" else t[1][2][0]]}
+        ctx.ob(f"attackers on rays[{turn}]", doms == {canon(pinners)}, f"is_legal_king_position ({turn} to move) scans {[T.show(d)[:150] for d in doms]}; expected enemy & ((bishops|queens) & bishop_rays | "
                "(rooks|queens) & rook_rays)", site=site, sample="enemy sliders on the square's rays")
         # blocked test: (occupancy with king lifted) & between(king_pos, attacker) == 0 -> false
         blk = []
@@ -390,14 +390,14 @@ def r3(ctx):
         ok_blk = bool(blk)
         for x, v, ret in blk:
             btw = [s_ for s_ in subterms(x) if s_[0] == "app" and s_[1] == "chess_lookup::between"]
-            ok_blk &= len(btw) == 1 and btw[0][2][0] == kp and acnorm(x) == acnorm(C.AND(lifted, word(btw[0])))
+            ok_blk &= len(btw) == 1 and btw[0][2][0] == kp and canon(x) == canon(C.AND(lifted, word(btw[0])))
             if v == 1:
                 ok_blk &= ret == T.FALSE
         ctx.ob(f"ray blocked test[{turn}]", ok_blk, f"is_legal_king_position ({turn}): the slider test is {[T.show(x)[:160] for x, _, _ in blk[:1]]}; expected "
                "(occupancy ^ own king ^ candidate square) & between(candidate, attacker) == empty -> attacked (the king must be lifted off the board)", site=site,
                sample="occupancy with the king lifted")
-        fin = {acnorm(lf.ret) for lf in mine if lf.ret[0] == "bin"}
-        ctx.ob(f"adjacent attackers[{turn}]", fin == {acnorm(final)}, f"is_legal_king_position ({turn}) ends with {[T.show(f_)[:200] for f_ in fin]}; expected no enemy king/knight/pawn on "
+        fin = {canon(lf.ret) for lf in mine if lf.ret[0] == "bin"}
+        ctx.ob(f"adjacent attackers[{turn}]", fin == {canon(final)}, f"is_legal_king_position ({turn}) ends with {[T.show(f_)[:200] for f_ in fin]}; expected no enemy king/knight/pawn on "
                "king_moves/knight_moves/pawn_attacks_moves(candidate, own colour)", site=site, sample="(king|knight|pawn attackers) == 0")
     # ---- king_legals
     key = PT + "King::king_legals"
@@ -416,8 +416,8 @@ def r3(ctx):
         for t, v in lf.cond:
             if t[0] == "app" and t[1] == LEGAL_KING:
                 dest = t[2][1]
-                dom_ok = any(tt[0] == "discr" and tt[1][0] == "app" and tt[1][1] == NEXT and acnorm(iter_domain(tt[1][2][0][1] if tt[1][2][0][0] == "refv" else tt[1][2][0])) ==
-                             acnorm(eng.binop("BitAnd", km, word(mask))) for tt, vv in lf.cond)
+                dom_ok = any(tt[0] == "discr" and tt[1][0] == "app" and tt[1][1] == NEXT and canon(iter_domain(tt[1][2][0][1] if tt[1][2][0][0] == "refv" else tt[1][2][0])) ==
+                             canon(eng.binop("BitAnd", km, word(mask))) for tt, vv in lf.cond)
                 filt = filt or (dom_ok and t[2][0] in (("refv", board), board))
     ctx.ob("king step filter", filt, "king_legals does not test is_legal_king_position(board, dest) for every dest of king_moves(king) & mask", site=site, sample="for dest in king_moves & mask")
     # castling: every path that adds CASTLE_MOVES is guarded
@@ -532,9 +532,9 @@ def r5(ctx):
             "no rook/queen attacker": (eng.binop("Ne", C.AND(word(("app", "chess_lookup::rook_moves", (ksq, bb(occ)))), rooks), T.I(0, "u64")), 0),
             "no bishop/queen attacker": (eng.binop("Ne", C.AND(word(("app", "chess_lookup::bishop_moves", (ksq, bb(occ)))), bishops), T.I(0, "u64")), 0),
         }
-        have = {(acnorm(t), v) for t, v in lf.cond}
+        have = {(canon(t), v) for t, v in lf.cond}
         for nm, (t, v) in want_tests.items():
-            ok = (acnorm(t), v) in have
+            ok = (canon(t), v) in have
             ctx.ob(f"ep[{tname}] {nm}#{n}", ok, f"en-passant capture ({tname} to move) is generated without the test `{nm}` in the form the rules require "
                    f"(attackers exclude the captured pawn; occupancy has both pawns removed and the target filled): missing {T.show(t)[:220]} == {v}", site=site,
                    sample={"test": nm} if n == 1 else None)
@@ -543,13 +543,12 @@ def r5(ctx):
         rank_bb = [x for x in subterms(dom) if x[0] == "bin" and x[1] == "Shl" and x[2] == T.I(g.bb([(f, 0) for f in range(8)]), "u64")]
         adj = [x for x in subterms(dom) if x[0] == "index" and x[1] == ("obj", ("static", "chess_lookup::ADJACENT_FILES"))]
         pinned_used = any(x == fld(board, "pinned") for x in subterms(dom))
-        own_pawns = acnorm(C.AND(C.colors(turn), C.pieces("Pawn")))
-        dn = acnorm(dom)
-        has_own = dn[0] == "ac" and all(p in dn[2] for p in own_pawns[2])
+        own_pawns = C.AND(C.colors(turn), C.pieces("Pawn"))
+        has_own = bool(rank_bb) and bool(adj) and canon(dom) == canon(C.AND(C.AND(rank_bb[0], ("field", adj[0], "0")), own_pawns))
         ctx.ob(f"ep[{tname}] candidates#{n}", bool(rank_bb) and bool(adj) and has_own and not pinned_used,
                f"en-passant candidates ({tname}): {T.show(dom)[:200]}; expected rank(pawn rank) & ADJACENT_FILES[ep file] & own pawns, NOT filtered by `pinned` (a pawn pinned along the capture diagonal may capture)",
                site=site, sample={"pinned_filter": pinned_used})
-        ctx.ob(f"ep[{tname}] entry#{n}", acnorm(mv) == acnorm(bit(tgt_sq)) and ef.get("promotion") == T.FALSE, f"en-passant entry destinations {T.show(mv)[:120]}; expected exactly the target square",
+        ctx.ob(f"ep[{tname}] entry#{n}", canon(mv) == canon(bit(tgt_sq)) and ef.get("promotion") == T.FALSE, f"en-passant entry destinations {T.show(mv)[:120]}; expected exactly the target square",
                site=site)
     ctx.floor("en-passant push paths", n, 2)
 
